@@ -28,6 +28,9 @@ def generate(r, tier, build):
         reqs.append("word gen=splitmix seed=%d via=from_seed ops=" % s)
         reqs.append("word gen=wyrand seed=%d via=from_seed ops=" % s)
         reqs.append("chacha n=%d seed=%d ops=u32" % (r.choice([8, 12, 20]), s))
+        if len(reqs) % 3 == 0:
+            # the FIRST request of a fresh generator may also be a byte fill (of any length) or a float: distinct seeds must still differ
+            reqs.append("chacha n=%d seed=%d ops=%s" % (r.choice([8, 12, 20]), s, r.choice(["fill:32", "fill:32", "fill:20", "fill:300", "f64,fill:32", "jump,fill:32"])))
     return reqs
 
 
@@ -75,6 +78,18 @@ def oracle(req, impl, build):
         return "seed %s gives the all-zero Xoshiro256 state" % seed
     # distinct seeds -> distinct initial states.  The state printed is after the ops; compare the model-independent
     # initial state where available: for ChaCha the key words are unchanged by draws.
+    if kind == "chacha" and re.search(r"ops=(fill:\d+|f64,fill:32|jump,fill:32)$", req):
+        rounds = re.search(r" n=(\d+)", req).group(1)
+        ops = req.split("ops=")[1]
+        first = " ".join(t for t in impl.split() if not t.startswith(("st:", "idx:")))
+        bs = [t[2:] for t in impl.split() if t.startswith("b:")]
+        if bs and len(bs[-1]) >= 40 and set(bs[-1]) <= {"0"}:
+            return "ChaCha%s seeded with %s: a fresh generator's first byte fill (%s) is all zero - the seed never reaches the output" % (rounds, seed, ops)
+        key = (build, "chacha-first-output", rounds, ops, first)
+        other = _seen.setdefault(key, seed)
+        _req_of.setdefault(key, req)
+        if other != seed:
+            return {"oracle": "ChaCha%s seeds %s and %s produce the same first output through `%s` (%s ...)" % (rounds, other, seed, ops, first[:50]), "requests": [_req_of[key], req]}
     if kind == "chacha":
         rounds = re.search(r" n=(\d+)", req).group(1)
         key = (build, kind, rounds, ",".join(st.split(",")[:8]))
